@@ -15,6 +15,7 @@ def _reexec_if_needed() -> None:
         "CUDA_VISIBLE_DEVICES": "",
         "SEDPACK_VERIF": "1",
         "TQDM_DISABLE": "1",
+        "RUST_BACKTRACE": "0",
         "PYTHONWARNINGS": "ignore",
     }
     if all(os.environ.get(k) == v for k, v in want.items()):
@@ -37,6 +38,13 @@ def main() -> int:
         return 2
     if argv[0] == "replay":
         return runner.cmd_replay(argv[1])
+    if argv[0] == "runcase":
+        import json
+        mod = runner.load_prop(argv[1])
+        with open(argv[2], encoding="utf-8") as f:
+            res = mod.run_case(json.load(f))
+        print("RUNCASE", res.get("ok"), res.get("vclass"))
+        return 0
     if argv[0] == "digests":
         return runner.cmd_digests(argv[1], argv[2], argv[3])
     tier = argv[1] if len(argv) > 1 else os.environ.get("VERIF_TIER", "quick")
